@@ -26,6 +26,10 @@ def _models(kind):
                                 (["A"], [], "massaction", {"k": 1.0}),
                                 (["B"], [], "massaction", {"k": 0.5}, "fixed", ["A"], [], {"delay": 0.25})], [],
                    {"A": 4, "B": 2}))
+        # a delay that evaluates to zero: the delayed part is applied together with the immediate part
+        ms.append((["A", "B"], [([], ["A"], "massaction", {"k": 3.0}, "fixed", [], ["B", "B"], {"delay": 0.0}),
+                                (["A"], [], "massaction", {"k": 1.0}),
+                                (["B"], [], "massaction", {"k": 0.5})], [], {"A": 4, "B": 2}))
     return ms
 
 
@@ -235,6 +239,25 @@ def _mkvol(growing):
     return v
 
 
+def _scaled(spec):
+    """A model on the counterexample's own scale: total propensity Lam and interface step dt taken from the solver's
+    counterexample (a conversion A -> B whose initial total propensity is Lam, observed over a few mean waiting times)."""
+    v = spec.get("values") or {}
+    try:
+        from .util import unfrac
+        v = unfrac(v)
+        lam, dt = float(v.get("Lam", 0)), float(v.get("dt", 0))
+    except Exception:
+        return None
+    if not (lam > 0 and dt > 0 and math.isfinite(lam) and math.isfinite(dt)) or lam < 1e-200 or lam > 1e200:
+        return None
+    k = lam / 5.0
+    if spec.get("kind", "ssa") != "ssa" and 3.0 / k / dt > 2e5:
+        return None                      # the queue / volume clocks step by dt: keep the replay finite
+    grid = np.linspace(0, 3.0 / k, 7)
+    return ((["A", "B"], [(["A"], ["B"], "massaction", {"k": k})], [], {"A": 5, "B": 0}), grid, dt, dt)
+
+
 def replay(spec):
     import warnings
     warnings.simplefilter("ignore")
@@ -250,13 +273,20 @@ def replay(spec):
         a, b = np.asarray(a, dtype=float), np.asarray(b, dtype=float)
         return a.shape != b.shape or not np.allclose(a, b, rtol=1e-9, atol=1e-9)
 
-    for mi, (species, rxns, params, init) in enumerate(_models(kind)):
+    configs = []
+    sc = _scaled(spec)
+    if sc is not None:
+        configs.append(("scaled",) + sc)
+    for mi, mdl in enumerate(_models(kind)):
         for grid in (np.linspace(0, 3, 7), np.linspace(0, 2, 9)) + \
                 ((np.array([0.0, 0.1, 0.5, 0.6, 2.0, 4.0]),) if kind == "ssa" else ()):
             dt = grid[1] - grid[0]
             qdt = dt
             if kind == "delay_volume" and spec.get("misaligned", True) and len(grid) == 9:
                 dt, qdt = 0.37, 0.41        # volume / queue clocks not aligned with the reporting grid
+            configs.append((mi, mdl, grid, dt, qdt))
+    for mi, (species, rxns, params, init), grid, dt, qdt in configs:
+        if True:
             for growing in ((False, True) if kind in ("volume", "delay_volume") else (False,)):
                 for seed in range(1, seeds + 1):
                     def fresh():
@@ -322,8 +352,6 @@ def replay(spec):
                         break
                 if found:
                     break
-            if found:
-                break
         if found:
             break
     return {"reproduced": bool(found), "observed": found[:1],
